@@ -48,6 +48,9 @@ def strategy_(draw, tier):
         prog = draw(gen.spread_program(steer=steer))
     other = draw(gen.scalar_program(early_virtual=True, linear=steer, max_stmts=3, max_depth=2))
     scheds = [draw(gen.schedule(faults=True)) for _ in range(2)]
+    if tier == "quick":
+        for sc in scheds:
+            sc.pop("untouched", None)
     sub = draw(st.integers(0, 15 if tier == "quick" else 5)) == 0
     return {"kind": kind, "prog": prog, "other": other, "scheds": scheds, "optimize": draw(st.integers(0, 3)) != 0,
             "poles": draw(st.sampled_from([None, None, "medium"])), "subprocess": sub, "hashseed": draw(st.integers(2, 10**6))}
